@@ -26,6 +26,7 @@ SCENARIOS = [  # name, lost (None=no reader actor, False=without error, True=wit
     ("user", None, True, False, 2),
     ("lost_exc_user", True, True, True, 2),
     ("lost_noexc_user", False, True, False, 3),
+    ("plain", None, False, False, 4),          # two producer threads and the real poll loop, no faults
 ]
 
 
@@ -43,7 +44,7 @@ def execute(args):
     sched = Sched([TR.__file__, TASK.__file__], switches)
 
     def who():
-        return {"pump": "sender", "reader": "reader", "user": "user", "connector": "connector", "producer": "producer"}.get(sched.cur, "?")
+        return {"pump": "sender", "reader": "reader", "user": "user", "connector": "connector"}.get(sched.cur, "producer")
 
     class Conn:
         def __init__(self, cid):
@@ -72,22 +73,37 @@ def execute(args):
         state["kpend"] += 1
     proto.conn_lost_callback = reconnect
 
-    def producer():
-        try:
-            for i in range(1, nmsgs + 1):
-                gw.tasks.add_job(lambda i=i: f"{i};255;3;0;6;M\n")
-                events.append({"a": "produce", "c": 0, "m": i, "who": "producer"})
-        finally:
-            state["finished"].add("producer")
+    nprod = 2 if name == "plain" else 1
+    shares = [list(range(1 + k, nmsgs + 1, nprod)) for k in range(nprod)]
+
+    def make_producer(k):
+        def producer():
+            try:
+                for i in shares[k]:
+                    gw.tasks.add_job(lambda i=i: f"{i};255;3;0;6;M\n")
+                    events.append({"a": "produce", "c": 0, "m": i, "who": "producer"})
+            finally:
+                state["finished"].add(f"producer{k}")
+        return producer
+    producers = {f"producer{k}" for k in range(nprod)}
+
+    class PumpTime:
+        """time as seen from mysensors.task: the idle sleep of the real _poll_queue parks on the scheduler."""
+        @staticmethod
+        def sleep(d):
+            if producers <= state["finished"] and not gw.tasks.queue:
+                gw.tasks._stop_event.set()      # everything queued has been handled: let the loop end
+                return
+            sched.wait_until("pump", lambda: bool(gw.tasks.queue) or producers <= state["finished"])
+
+        @staticmethod
+        def time():
+            return 0.0
+    TASK.time = PumpTime
 
     def pump():
-        handled = 0
         try:
-            while handled < nmsgs:
-                sched.wait_until("pump", lambda: bool(gw.tasks.queue))
-                reply = gw.tasks.run_job()
-                tr.send(reply)
-                handled += 1
+            gw.tasks._poll_queue()              # the real poll loop
         finally:
             state["finished"].add("pump")
 
@@ -103,7 +119,7 @@ def execute(args):
         finally:
             state["finished"].add("user")
 
-    others = {"producer", "pump"} | ({"reader"} if lost is not None else set()) | ({"user"} if user else set())
+    others = producers | {"pump"} | ({"reader"} if lost is not None else set()) | ({"user"} if user else set())
 
     def connector_actor():
         while True:
@@ -117,7 +133,7 @@ def execute(args):
                 tr.protocol.connection_made(c)   # what ReaderThread.run does first
                 events.append({"a": "made", "c": c.cid, "m": 0, "who": "connector"})
 
-    actors = [("producer", producer), ("pump", pump)]
+    actors = [(f"producer{k}", make_producer(k)) for k in range(nprod)] + [("pump", pump)]
     if lost is not None:
         actors.append(("reader", reader))
     if user:
@@ -152,7 +168,7 @@ def run(tier):
     for (name, lost, user, connector, nmsgs) in SCENARIOS:
         probe = execute((name, lost, user, connector, nmsgs, {}))
         nsteps = probe["steps"] + 4
-        acts = ["producer", "pump"] + (["reader"] if lost is not None else []) + (["user"] if user else []) + \
+        acts = (["producer0", "producer1"] if name == "plain" else ["producer0"]) + ["pump"] + (["reader"] if lost is not None else []) + (["user"] if user else []) + \
                (["connector"] if connector else [])
         if bound <= 2:
             scheds = schedules(nsteps, acts, bound)
